@@ -191,6 +191,16 @@ class C04(PoolCheck):
             ref_errs, ref_dec = strip_xmlns(ref_errs), strip_xmlns(ref_dec)
             self.ref_strict = {k: strip_xmlns(v) for k, v in self.ref_strict.items()}
             got = [strip_xmlns(g) for g in got]
+            root_end = data.find(b'>', data.find(b'<', data.find(b'?>') + 2))
+            if b'xmlns' in data[root_end:]:
+                # namespaces (re)declared BELOW the root: which of two prefixes bound to one namespace names a
+                # decoded key depends on declarations an lxml tree does not record - verdicts and errors are
+                # compared in full, decoded data only as present / absent
+                ref_dec = drop_data(ref_dec)
+                self.ref_strict = {k: (drop_data(v) if k.startswith('decode') else v)
+                                   for k, v in self.ref_strict.items()}
+                got = [drop_data(g) if ep.startswith(('decode', 'pkg_to_dict')) else g
+                       for ep, g in zip(case['eps'], got)]
         for k, (ep, g) in enumerate(zip(case['eps'], got)):
             sig = self.judge(ep, g, ref_errs, ref_dec)
             if sig is not None:
@@ -371,6 +381,21 @@ def tree_view(res, keep_data=False):
         res['v'] = [_tv_err(e) for e in v]
     elif not isinstance(v, bool) and v is not None and not keep_data:
         res['v'] = None
+    return res
+
+
+def drop_data(res):
+    """Decoded data reduced to present / absent; collected errors and raised exceptions kept in full."""
+    res = jcopy(res)
+    if res['k'] != 'ok':
+        return res
+    v = res['v']
+    if isinstance(v, list) and len(v) == 2 and isinstance(v[1], list) and \
+            (not v[1] or (isinstance(v[1][0], list) and v[1][0] and str(v[1][0][0]).startswith('XMLSchema'))) \
+            and not (v and isinstance(v[0], list) and v[0] and str(v[0][0]).startswith('XMLSchema')):
+        res['v'] = [None if v[0] is None else 'DATA', v[1]]       # lax decode: (data, errors)
+    elif not isinstance(v, bool) and v is not None:
+        res['v'] = 'DATA'
     return res
 
 
